@@ -368,3 +368,60 @@ Example C04_kept_screen_example :
   /\ map (alive (fst (fst st))) [0;1;2] = [false; false; false]
   /\ screen 8 (snd st) = map (pad 8) [[108]; [65;49]; [66;55]; [67;57;111;107]].
 Proof. vm_compute. repeat split. Qed.
+
+(** ------------------------------------------------------------------------------------------
+    The kept rows are FINAL FRAMES (closing "stored lines at reap time" vs "final renderings" of
+    C04_kept_screen_partial; model/MultiRegion.v, proofs/MultiRegionProofs.v).  Reaping turns the
+    STORED lines of a dropped member into kept rows ([reap_act]: a MultiState::draw without text
+    keeps the stored lines of the dropped bars at the head of the ordering of the MultiState it is
+    made on; mark_zombie at the head keeps [member_lines m idx]).  For every valid history from an
+    empty MultiProgress on a terminal, any limiter, any fault oracle, at every call:
+    (a) at every MultiState::draw the call makes, the stored lines of EVERY slot of the ordering
+        (in particular of the dropped bars it reaps) are the rendering of the slot's ghost entry
+        after the call, and when that entry is in sync they are [frame_of] the owning bar's state
+        right after the call - for a dropped bar: its final state (a finished bar's every draw is
+        forced and stores [frame_of] of its current state: C02_draw_step_current);
+    (b) the drop of a FINISHED member runs mark_zombie on the state before the call: the stored
+        lines of its slot are [frame_of] its final state, and the drop does not change that state.
+    `_partial`: (1) "in sync" is a hypothesis: after set_style, or an inc/dec/set_position swallowed
+    by the bar's OWN position limiter (silent changes, C02_logic_change; open C05 finding D27), the
+    stored lines are those of the bar's latest DRAWN state, not of its final state; (2) the
+    statement is about the lines at the reap sites, it is not glued to [reaped_hist] (the drop of an
+    UNFINISHED head member marks on the MultiState after its own finishing draw; (a) covers the
+    lines at that draw, the mark reads the same slot). *)
+From IndModel Require Import MultiRegion.
+From IndProofs Require Import MultiRegionProofs.
+
+Theorem C04_kept_rows_are_final_frames_partial : forall (W H : N) (fails : N -> bool) (s0 : sys)
+    (h1 h2 : list (N * op)) (now : N) (o : op),
+  init_ok s0 -> mp_visible s0 -> MultiSpec.hist_ok W H fails s0 (h1 ++ (now, o) :: h2) ->
+  let r := lrun W H fails s0 0 lg_empty h1 in
+  let s := fst (fst r) in
+  let lg' := lat_step s now o (length h1) (snd r) in
+  let s' := step_sys W H fails s now o in
+  s = MultiSpec.run W H fails s0 h1
+  /\ (forall m f ex i, In (m, f, ex) (step_draws W H fails s now o) -> In i (ms_order m) ->
+        member_lines (ms_members m) i = shown lg' i
+        /\ forall e, lg_slot lg' i = Some e -> le_sync e = true ->
+             b_target (get_bar s (le_bar e)) = TMulti i
+             /\ member_lines (ms_members m) i = frame_of (get_bar s' (le_bar e)))
+  /\ (forall b idx e, o = ODrop b -> finished (get_bar s b) = true -> b_target (get_bar s b) = TMulti idx ->
+        lg_slot (snd r) idx = Some e -> le_sync e = true ->
+        member_lines (ms_members (s_mp s)) idx = frame_of (get_bar s' b)
+        /\ logic (get_bar s' b) = logic (get_bar s b)).
+Proof. exact reaped_lines_final. Qed.
+Print Assumptions C04_kept_rows_are_final_frames_partial.
+
+(** on the history above: the drop of A (finished by abandon, head of the list) keeps its stored
+    line "A1", which is [frame_of] its final state; B and C, dropped behind it, are still in the
+    ordering and their stored lines are their final frames *)
+Example C04_kept_rows_final_example :
+  let h := exk_h1 ++ firstn 4 exk_h2 in
+  let r := lrun 8 10 nofaults exk_s0 0 lg_empty h in
+  let s := fst (fst r) in
+  mp_visible exk_s0 /\ MultiSpec.hist_ok 8 10 nofaults exk_s0 (h ++ [(300000004, ODrop 0)])
+  /\ finished (get_bar s 0) = true /\ b_target (get_bar s 0) = TMulti 0
+  /\ option_map (fun e => (le_bar e, le_sync e)) (lg_slot (snd r) 0) = Some (0, true)
+  /\ member_lines (ms_members (s_mp s)) 0 = [mkline KBar [65;49]]
+  /\ frame_of (get_bar (step_sys 8 10 nofaults s 300000004 (ODrop 0)) 0) = [mkline KBar [65;49]].
+Proof. split; [eexists; reflexivity|]. vm_compute. repeat split. Qed.
